@@ -1038,3 +1038,12 @@ def _one_sub_bag(interp, args, kwargs, node):
     return VList(CompBag([Site("sub", [i1, k1], z3.And(0 <= i1, i1 < n, 0 <= k1, k1 < m,
                                                         z3.SubString(A.term, k1, 1) != z3.SubString(x.term, i1, 1)),
                                _sub_at(interp, [x, VInt(i1), ch], {}, node))]), "list")
+
+
+@spec("is_integral")
+def _is_integral(interp, args, kwargs, node):
+    v = args[0]
+    if isinstance(v, (VInt, VBool)):
+        return VBool(True)
+    t = to_real(v)
+    return VBool(t == z3.ToReal(z3.ToInt(t)))
